@@ -22,8 +22,12 @@ def contiguous(idx):
 
 @lib("pandas.concat")
 def pd_concat(I, args, kwargs):
-    items = I.iter_concrete(args[0])
     axis = kwargs.get("axis", 0)
+    if isinstance(args[0], Opaque) and getattr(args[0], "listlen", None) is not None:
+        # a list accumulated over a loop of symbolic length: blocks stay in list order (pandas, assumed)
+        USED.add("pd.concat(list, axis=0): blocks in list order")
+        return Opaque("concat", prov=("concat", args[0], axis))
+    items = I.iter_concrete(args[0])
     if any(isinstance(p, Opaque) for p in items):
         o = Opaque("concat", prov=("concat", axis, list(items)))
 
@@ -344,6 +348,17 @@ def pd_dataframe(I, args, kwargs):
     t = rows_table_from(I, data)
     if t is not None:
         return t
+    if isinstance(data, Opaque) and data.prov is not None and len(args) + len(kwargs) == 1:
+        # pd.DataFrame(frame-like): same content (provenance kept), attributes such as .columns may be assigned
+        o = Opaque("DataFrame(" + data.tag + ")", prov=data.prov)
+        o.setattr_ok = True
+        o.attrs = {}
+        return o
+    if isinstance(data, SArr) and data.ndim == 2 and data.dtype != "obj" and set(kwargs) <= {"data"} and len(args) <= 1:
+        # pd.DataFrame(2-d array): same cells, default RangeIndex rows / columns
+        n, c = data.shape
+        return SFrame(SArr((n,), lambda i: i, "int", "RangeIndex", closed=(0, 1)), data.with_kind("ndarray"),
+                      SArr((c,), lambda i: i, "int", "RangeIndex", closed=(0, 1)))
     raise Undecided("pd.DataFrame(data)")
 
 
@@ -362,6 +377,11 @@ def _t_same(I, recv, args, kwargs):
     return STable(recv.nrows, recv.tag)
 
 
+def _t_transpose(I, recv, args, kwargs):
+    return Opaque("transposed table", prov=("transpose", recv))
+
+
+_M2[("STable", "transpose")] = _t_transpose
 _M2[("STable", "append")] = _t_append
 _M2[("STable", "drop")] = _t_same
 _M2[("STable", "astype")] = _t_same
